@@ -1,5 +1,6 @@
 from __future__ import annotations
 from collections.abc import Callable
+import logging
 import multiprocessing
 from multiprocessing.synchronize import Event as EventClass
 import threading
@@ -104,8 +105,9 @@ class PythonCV2XLinkLayer(LinkLayer):
                 try:
                     self.receive_callback(data)
                 except Exception as e:  # pylint: disable=broad-except
-                    # A malformed or unsupported frame must never stop the receive loop.
-                    print("Error decoding packet: " + str(e))
+                    # A malformed or unsupported frame must never stop the receive loop, and
+                    # neither must reporting it (print() raises when stdout is closed).
+                    logging.getLogger("link_layer").warning("Error decoding packet: %s", e)
 
     def stop(self) -> None:
         """
